@@ -77,7 +77,21 @@ pub fn convert(cmd: &str, p: &Value, frame: Frame) -> Option<R> {
     let songs = |v: Vec<Song>| json!({"songs": v.iter().map(|s| song_json(s, None)).collect::<Vec<_>>()});
     Some(match cmd {
         "Queue" => cmds::Queue.response(frame).map(songs_q),
-        "QueueRange" => cmds::Queue::song(cmds::SongPosition(0)).response(frame).map(songs_q),
+        // the request's own parameters must not matter for decoding: single song / id, ranges of every shape (also end < start)
+        "QueueRange" => {
+            let a = cmds::SongPosition(p["qfrom"].as_u64().unwrap_or(0) as usize);
+            let b = cmds::SongPosition(p["qto"].as_u64().unwrap_or(0) as usize);
+            let q = match p["qkind"].as_str().unwrap_or("song") {
+                "id" => cmds::Queue::song(cmds::SongId(7)),
+                "range" => cmds::Queue::range(a..b),
+                "range_incl" => cmds::Queue::range(a..=b),
+                "range_from" => cmds::Queue::range(a..),
+                "range_to" => cmds::QueueRange::range(..b),
+                "range_full" => cmds::QueueRange::range(..),
+                _ => cmds::Queue::song(a),
+            };
+            q.response(frame).map(songs_q)
+        }
         "CurrentSong" => cmds::CurrentSong.response(frame).map(|o| json!({"songs": o.iter().map(|q| song_json(&q.song, Some(q))).collect::<Vec<_>>()})),
         "Find" => cmds::Find::new(simple_filter()).response(frame).map(songs),
         "GetPlaylist" => cmds::GetPlaylist("pl").response(frame).map(songs),
@@ -125,7 +139,7 @@ pub fn convert(cmd: &str, p: &Value, frame: Frame) -> Option<R> {
             json!({"values": [], "back": [], "owned": [], "grouped": grouped, "raw": raw})
         }),
         "GetPlaylists" => cmds::GetPlaylists.response(frame).map(|v| json!({"playlists": v.iter().map(|p| json!([p.name.as_bytes(), p.last_modified.raw().as_bytes()])).collect::<Vec<_>>()})),
-        "StickerGet" => cmds::StickerGet::new("u", "n").response(frame).map(|s| json!({"value": s.value.as_bytes(), "into": String::from(s.clone()).as_bytes()})),
+        "StickerGet" => cmds::StickerGet::new("u", p["sname"].as_str().unwrap_or("n")).response(frame).map(|s| json!({"value": s.value.as_bytes(), "into": String::from(s.clone()).as_bytes()})),
         "StickerList" => cmds::StickerList::new("u").response(frame).map(|s| {
             let mut v: Vec<(Vec<u8>, Vec<u8>)> = s.value.iter().map(|(k, v)| (k.as_bytes().to_vec(), v.as_bytes().to_vec())).collect();
             v.sort();
